@@ -5,6 +5,7 @@ CONSTANTS
   HiddenAsZero = FALSE
   ForgetLink = FALSE
   ShowHidden = FALSE
+  Rehide = TRUE
   MaxFrames = 3
 SPECIFICATION MSpec
 INVARIANT FrameAlwaysOK
